@@ -138,5 +138,6 @@ func (g *Gen) coHistory(d int) []Stmt {
 			out = append(out, emit(call("coroutine.status", v(co)), call("coroutine.running")))
 		}
 	}
-	return out
+	// a block of its own: the helpers and the history locals do not add to the locals of the enclosing function
+	return []Stmt{&Do{Body: out}}
 }
